@@ -11,7 +11,7 @@ import (
 func init() {
 	register(&propDef{
 		ID:          "C10",
-		Explanation: "Structural preconditions of the UDP template lifetime, decided on SSA: (1) on the UDP side of addTemplate every path stores expiryTime = clock.Now() + templateTTL and then performs exactly one of: install clock.AfterFunc(templateTTL, f) into an expiryTimer that is nil, or Reset(templateTTL) the existing timer (never both, never none; the same TTL field on all three); (2) the timer callback f reaches the template map only through deleteTemplateWithConds with a non-empty condition whose closure reads expiryTime of ITS OWN argument (the template currently stored, looked up under the lock) and compares it with a clock.Now() taken inside f by !After, for the same (obsDomainID, templateID) the timer was armed for; (3) in the delete function the conditions are evaluated before anything is changed: once expiryTimer.Stop() has been called every path performs the deletion (a vetoed delete never stops the re-armed timer), every path to the map deletion passes Stop() unless the timer is nil, and an emptied domain map is pruned; (4) the lockset rules for the template fields and the map (the condition closure is entered only from the locked call site). The interleavings of timer firing, callback execution, refresh and invalidation themselves are schedules and are not enumerated; time.Timer semantics are trusted. Later additions: the entry whose timer fields are written is a fresh &template{} or the lookup result under this call's keys, and a fresh entry is stored only on the miss edge of that lookup.",
+		Explanation: "Structural preconditions of the UDP template lifetime, decided on SSA: (1) on the UDP side of addTemplate every path stores expiryTime = clock.Now() + templateTTL and then performs exactly one of: install clock.AfterFunc(templateTTL, f) into an expiryTimer that is nil, or Reset(templateTTL) the existing timer (never both, never none; the same TTL field on all three); (2) the timer callback f reaches the template map only through deleteTemplateWithConds with a non-empty condition whose closure reads expiryTime of ITS OWN argument (the template currently stored, looked up under the lock) and compares it with a clock.Now() taken inside f by !After, for the same (obsDomainID, templateID) the timer was armed for; (3) in the delete function the conditions are evaluated before anything is changed: once expiryTimer.Stop() has been called every path performs the deletion (a vetoed delete never stops the re-armed timer), every path to the map deletion passes Stop() unless the timer is nil, and an emptied domain map is pruned; (4) the lockset rules for the template fields and the map (the condition closure is entered only from the locked call site). The interleavings of timer firing, callback execution, refresh and invalidation themselves are schedules and are not enumerated; time.Timer semantics are trusted. Later additions: the entry whose timer fields are written is a fresh &template{} or the lookup result under this call's keys, and a fresh entry is stored only on the miss edge of that lookup. Round-five additions: the per-domain map is created only on the miss edge of the domain lookup (never replaced when it exists).",
 		Assume:      []string{"time.AfterFunc / Timer.Reset / Timer.Stop semantics as documented (quoted in the source comment)", "the clock interface is implemented by realClock in production"},
 		Run:         runC10,
 	})
